@@ -27,10 +27,12 @@ type Damage struct {
 
 // ChunkOp is one chunk of a byzantine (with-key) payload.
 type ChunkOp struct {
-	Src   int  `json:"src"`   // index of the plaintext chunk of P it carries; -1 = empty
-	Cut   int  `json:"cut"`   // >0: only the first Cut bytes of that chunk
-	Ctr   int  `json:"ctr"`   // counter it is sealed under
-	Final bool `json:"final"` // final flag it is sealed under
+	Src     int  `json:"src"`               // index of the plaintext chunk of P it carries; -1 = empty
+	Cut     int  `json:"cut"`               // >0: only the first Cut bytes of that chunk
+	Skip    int  `json:"skip,omitempty"`    // >0: without the first Skip bytes (second half of a split chunk)
+	Ctr     int  `json:"ctr"`               // counter it is sealed under
+	Final   bool `json:"final"`             // final flag it is sealed under
+	Foreign bool `json:"foreign,omitempty"` // sealed under another stream key (a chunk of a sibling file)
 }
 
 type C02Plan struct {
@@ -58,7 +60,7 @@ func (C02) Runs(tier string) int {
 func (C02) Meta() core.Meta {
 	return core.Meta{
 		Level: "fault_enumeration",
-		Rule: "a case = (file, one storage fault or writer-crash point or with-key chunk sequence, delivery schedule, read schedule); every damaged image is read under the plan's schedule plus unbuffered data-with-EOF and byte-at-a-time. Sweep runs enumerate every bit flip and every truncation length of the payload region (nonce and chunks) of a small file; sampled runs damage multi-chunk files near chunk boundaries (flip, insert, delete, extend, drop/dup/swap/move/misdirect a chunk write) or build a with-key sequence of up to 5 chunk variants (other counter, other final flag, short, empty, split). Non-trivial = image differs from the honest file; distinct = distinct (file skeleton, damage, delivery).",
+		Rule: "a case = (file, one storage fault or writer-crash point or with-key chunk sequence, delivery schedule, read schedule); every damaged image is read under the plan's schedule plus unbuffered data-with-EOF and byte-at-a-time. Sweep runs enumerate every bit flip and every truncation length of the payload region (nonce and chunks) of a small file; sampled runs damage multi-chunk files near chunk boundaries (flip, insert, delete, extend, drop/dup/swap/move/misdirect a chunk write) or build a with-key sequence of up to 5 chunk variants (other counter, other final flag, short, empty, split in two, sealed under a foreign key). Non-trivial = image differs from the honest file; distinct = distinct (file skeleton, damage, delivery).",
 		Assumptions: []string{
 			"ChaCha20-Poly1305, HKDF and the reference STREAM model are the trusted base",
 			"with-key sequences: accepted with a clean end => image is byte for byte the canonical encoding of the released plaintext (one chunking per plaintext); a (key, nonce) pair reused across different plaintexts is not a generated fault",
@@ -114,6 +116,18 @@ func (C02) Generate(r *core.RNG, tier string, idx uint64) interface{} {
 			}
 			if r.Chance(1, 4) {
 				op.Final = !op.Final
+			}
+			if r.Chance(1, 12) {
+				op.Foreign = true
+			}
+			if r.Chance(1, 8) && op.Src >= 0 && len(p.Seq) < 5 {
+				// a 64 KiB chunk split in two consecutive chunks
+				cut := r.Pick(1, 100, 32768, 65535)
+				first := op
+				first.Cut, first.Final = cut, false
+				p.Seq = append(p.Seq, first)
+				op.Skip, op.Cut = cut, 0
+				op.Ctr++
 			}
 			p.Seq = append(p.Seq, op)
 		}
@@ -470,6 +484,7 @@ func (e C02) Execute(plan interface{}, c *core.Ctx) *core.Verdict {
 		}
 		var S []byte
 		var payload []byte
+		foreign := false
 		for _, op := range p.Seq {
 			var pt []byte
 			if op.Src >= 0 && op.Src < len(pchunks) {
@@ -478,8 +493,16 @@ func (e C02) Execute(plan interface{}, c *core.Ctx) *core.Verdict {
 			if op.Cut > 0 && op.Cut < len(pt) {
 				pt = pt[:op.Cut]
 			}
+			if op.Skip > 0 && op.Skip < len(pt) {
+				pt = pt[op.Skip:]
+			}
+			key := l.StreamKey
+			if op.Foreign {
+				key = ref.StreamKey(core.Pattern(4242, 16), l.Nonce)
+				foreign = true
+			}
 			S = append(S, pt...)
-			payload = append(payload, ref.SealChunk(l.StreamKey, uint64(op.Ctr), op.Final, pt)...)
+			payload = append(payload, ref.SealChunk(key, uint64(op.Ctr), op.Final, pt)...)
 		}
 		img := append(append([]byte(nil), F[:l.HeaderLen+16]...), payload...)
 		c.Stats.Inc("fault.byzantine_seq")
@@ -503,6 +526,7 @@ func (e C02) Execute(plan interface{}, c *core.Ctx) *core.Verdict {
 				return v
 			}
 			// the reference model must agree that this image is not a canonical stream
+			_ = foreign
 			if _, err := ref.OpenPayload(l.StreamKey, payload); err == nil {
 				v := core.Fail("C02.canonical_rejected", "with-key sequence %+v is a canonical STREAM per the reference model but the library rejected it: %s", p.Seq, res.ErrText())
 				v.Narrow = narrow()
